@@ -454,11 +454,30 @@ def gen_mirrored_scenario(rng, seed, tier):
     if fe:
         si, ei, _ = rng.choice(fe)
         base["sections"][si]["entries"][ei][1] = "as.zero"
+    zeros = rng.random() < 0.5
+    if zeros:
+        # both tables hold nothing but zeros: +0.0 in one, -0.0 in the other (whatever the writer formats first is a zero
+        # of the model's own sign)
+        for si, ei, _ in fe:
+            base["sections"][si]["entries"][ei][1] = ">=0 as.constant 0.0"
+    if base["meta"]["kind"] != "pair":
+        # no zero among the header constants (lattice constants default to 0.0 and are formatted before any table value)
+        sp_sec = mg.get_section(base, "Species")
+        if sp_sec is None:
+            sp_sec = {"name": "Species", "entries": []}
+            base["sections"].append(sp_sec)
+        have = {e[0].replace(" ", "") for e in sp_sec["entries"]}
+        for sp in base["meta"]["species"]:
+            if sp + ".lattice_constant" not in have:
+                sp_sec["entries"].append([sp + ".lattice_constant", fmt_num(round(rng.uniform(2.5, 5.5), 3))])
     mirror = copy.deepcopy(base)
     for si, ei, _ in fe:
         d = mirror["sections"][si]["entries"][ei][1]
-        if not _BOUNDARY.search(d):
-            mirror["sections"][si]["entries"][ei][1] = "product(as.constant -1.0, %s)" % d
+        if zeros or not _BOUNDARY.search(d):
+            # in the all-zeros flavour the range includes its start and the constant is -0.0 itself, so that the very first
+            # grid value is a -0.0 too (with the default '>0' range the value exactly at 0 is +0.0 whatever the function,
+            # and modifiers inside an explicit range add their result to 0.0, which loses the sign)
+            mirror["sections"][si]["entries"][ei][1] = ">=0 as.constant -0.0" if zeros else "product(as.constant -1.0, %s)" % d
     models = [base, mirror]
     order = [0, 1] if rng.random() < 0.5 else [1, 0]
     ops = []
